@@ -229,3 +229,151 @@ func init() {
 				state = h
 			}`}}})
 }
+
+func init() {
+	// ---- C12 ------------------------------------------------------------------------------
+	addMutant(Mutant{Name: "c12-revert-printf-fix", Props: []string{"C12"}, Rule: "R-FMT", KeySub: "Printf",
+		Why: "the record is the format string again",
+		Edits: []Edit{{File: "cmds/server/config/accounters/local/local.go", Old: `a.sink.Printf("%s", jsonLog)`, New: `a.sink.Printf(string(jsonLog))`}}})
+	addMutant(Mutant{Name: "c12-success-before-sink", Props: []string{"C12"}, Rule: "R-ORDER", KeySub: "sink-before-success",
+		Why: "for start records the reply is sent before the record is written",
+		Edits: []Edit{{File: "cmds/server/config/accounters/local/local.go", Old: `	// log accounting data
+	a.sink.Printf("%s", jsonLog)
+
+	// start/stop/watchdog don't actually log anything, this is up to you
+	switch body.Flags {
+	case tq.AcctFlagStart:
+		response.Reply(
+			tq.NewAcctReply(
+				tq.SetAcctReplyStatus(tq.AcctReplyStatusSuccess),
+				tq.SetAcctReplyServerMsg("success, logging started"),
+			),
+		)
+		return`, New: `	// start/stop/watchdog don't actually log anything, this is up to you
+	if body.Flags == tq.AcctFlagStart {
+		response.Reply(
+			tq.NewAcctReply(
+				tq.SetAcctReplyStatus(tq.AcctReplyStatusSuccess),
+				tq.SetAcctReplyServerMsg("success, logging started"),
+			),
+		)
+		a.sink.Printf("%s", jsonLog)
+		return
+	}
+	// log accounting data
+	a.sink.Printf("%s", jsonLog)
+	switch body.Flags {
+	case tq.AcctFlagStart:
+		return`}}})
+	addMutant(Mutant{Name: "c12-sink-under-debug-flag", Props: []string{"C12"}, Rule: "R-ORDER", KeySub: "sink-before-success",
+		Why: "the record is only written when the request is a stop record",
+		Edits: []Edit{{File: "cmds/server/config/accounters/local/local.go", Old: `	a.sink.Printf("%s", jsonLog)
+`, New: `	if body.Flags.Has(tq.AcctFlagStop) {
+		a.sink.Printf("%s", jsonLog)
+	}
+`}}})
+	addMutant(Mutant{Name: "c12-record-twice", Props: []string{"C12"}, Rule: "R-ORDER", KeySub: "sink-before-success",
+		Why: "the record is written twice",
+		Edits: []Edit{{File: "cmds/server/config/accounters/local/local.go", Old: `	a.sink.Printf("%s", jsonLog)
+`, New: `	a.sink.Printf("%s", jsonLog)
+	a.sink.Printf("%s", jsonLog)
+`}}})
+	addMutant(Mutant{Name: "c12-syslog-write-error-ignored", Props: []string{"C12"}, Rule: "R-ORDER", KeySub: "syslog",
+		Why: "the syslog accounter acknowledges although the write failed",
+		Edits: []Edit{{File: "cmds/server/config/accounters/syslog/syslog.go", Old: `		a.Errorf("failed to write accounting data to syslog: %v", err)
+		return
+`, New: `		a.Errorf("failed to write accounting data to syslog: %v", err)
+`}}})
+	addMutant(Mutant{Name: "c12-default-accounter-success", Props: []string{"C12"}, Rule: "R-ORDER", KeySub: "defaultAccounter",
+		Why: "users without an accounter are acknowledged although nothing is recorded",
+		Edits: []Edit{{File: "cmds/server/config/aaa.go", Old: `			tq.SetAcctReplyStatus(tq.AcctReplyStatusError),
+			tq.SetAcctReplyServerMsg("accounting denied"),`, New: `			tq.SetAcctReplyStatus(tq.AcctReplyStatusSuccess),
+			tq.SetAcctReplyServerMsg("accounting denied"),`}}})
+	addMutant(Mutant{Name: "c12-arg-marshaltext", Props: []string{"C12"}, Rule: "R-JSON", KeySub: "Args",
+		Why: "Arg gains a MarshalText that trims: the record silently differs from the request",
+		Edits: []Edit{{File: "authorize_fields.go", Old: `// ASV splits an attribute value pair into attribute, separator, value`, New: `// MarshalText renders the trimmed argument
+func (t Arg) MarshalText() ([]byte, error) { return []byte(t.String()), nil }
+
+// ASV splits an attribute value pair into attribute, separator, value`}}})
+}
+
+func init() {
+	// ---- C11 ------------------------------------------------------------------------------
+	addMutant(Mutant{Name: "c11-returnbool-default-true", Props: []string{"C11"}, Rule: "R-FIRSTMATCH", KeySub: "return",
+		Why: "the decision helper grants for every action other than DENY handled: default true",
+		Edits: []Edit{{File: "cmds/server/config/authorizers/stringy/command.go", Old: `		default:
+			return false
+		}`, New: `		default:
+			return true
+		}`}}})
+	addMutant(Mutant{Name: "c11-final-return-true", Props: []string{"C11"}, Rule: "R-FIRSTMATCH", KeySub: "return",
+		Why: "no rule applies -> permit",
+		Edits: []Edit{{File: "cmds/server/config/authorizers/stringy/command.go", Old: `			}
+		}
+	}
+	return false
+}`, New: `			}
+		}
+	}
+	return true
+}`}}})
+	addMutant(Mutant{Name: "c11-prepend-group-rules", Props: []string{"C11"}, Rule: "R-FIRSTMATCH", KeySub: "user-rules-before-group-rules",
+		Why: "group rules are put before user rules",
+		Edits: []Edit{{File: "cmds/server/config/authorizers/stringy/stringy.go", Old: `		u.Commands = append(u.Commands, g.Commands...)`, New: `		u.Commands = append(g.Commands, u.Commands...)`}}})
+	addMutant(Mutant{Name: "c11-revert-anchor-fix", Props: []string{"C11"}, Rule: "R-ANCHOR", KeySub: "regexp",
+		Why: "byte-inspection anchoring comes back",
+		Edits: []Edit{{File: "cmds/server/config/authorizers/stringy/command.go", Old: `			regexish = regexStartStr + "(?:" + regexish + ")" + regexEndStr`, New: `			if regexish[0] != regexStartByte {
+				regexish = regexStartStr + regexish
+			}
+			if regexish[len(regexish)-1] != regexEndByte {
+				regexish = regexish + regexEndStr
+			}`}}})
+	addMutant(Mutant{Name: "c11-no-anchor", Props: []string{"C11"}, Rule: "R-ANCHOR", KeySub: "regexp",
+		Why: "the wrapping is dropped altogether: substring match",
+		Edits: []Edit{{File: "cmds/server/config/authorizers/stringy/command.go", Old: `			regexish = regexStartStr + "(?:" + regexish + ")" + regexEndStr
+`, New: ``}}})
+	addMutant(Mutant{Name: "c11-accumulate-decision", Props: []string{"C11"}, Rule: "R-FIRSTMATCH", KeySub: "",
+		Why: "the decision is accumulated over all rules (last match wins) instead of returning at the first",
+		Edits: []Edit{{File: "cmds/server/config/authorizers/stringy/command.go", Old: `	for _, c := range a.user.Commands {
+		// trim into locals only; the rules are shared by every request of this user
+		c.Name = strings.TrimSpace(c.Name)
+		if c.Name == "*" {
+			// special condition of allow anything
+			return returnBool(c.Action)
+		}`, New: `	decided := false
+	for _, c := range a.user.Commands {
+		// trim into locals only; the rules are shared by every request of this user
+		c.Name = strings.TrimSpace(c.Name)
+		if c.Name == "*" {
+			// special condition of allow anything
+			decided = returnBool(c.Action)
+			continue
+		}`},
+			{File: "cmds/server/config/authorizers/stringy/command.go", Old: `			}
+		}
+	}
+	return false
+}`, New: `			}
+		}
+	}
+	return decided
+}`}}})
+	addMutant(Mutant{Name: "c11-bad-regex-continues", Props: []string{"C11"}, Rule: "R-FIRSTMATCH", KeySub: "bad-pattern-denies",
+		Why: "an invalid pattern is skipped instead of denying",
+		Edits: []Edit{{File: "cmds/server/config/authorizers/stringy/command.go", Old: `				a.Errorf(a.ctx, "bad regex detected; %v", err)
+				return false`, New: `				a.Errorf(a.ctx, "bad regex detected; %v", err)
+				continue`}}})
+	addMutant(Mutant{Name: "c11-command-handler-always-pass", Props: []string{"C11"}, Rule: "R-PROVENANCE", KeySub: "CommandBasedAuthorizer",
+		Why: "the deny branch of the command handler replies PASS_ADD too",
+		Edits: []Edit{{File: "cmds/server/config/authorizers/stringy/command.go", Old: `			tq.SetAuthorReplyStatus(tq.AuthorStatusFail),
+			tq.SetAuthorReplyServerMsg("not authorized"),`, New: `			tq.SetAuthorReplyStatus(tq.AuthorStatusPassAdd),
+			tq.SetAuthorReplyServerMsg("not authorized"),`}}})
+	addMutant(Mutant{Name: "c11-default-authorizer-pass", Props: []string{"C11"}, Rule: "R-PROVENANCE", KeySub: "defaultAuthorizer",
+		Why: "users without authorizer are granted",
+		Edits: []Edit{{File: "cmds/server/config/aaa.go", Old: `			tq.SetAuthorReplyStatus(tq.AuthorStatusFail),
+			tq.SetAuthorReplyServerMsg("authorization denied"),`, New: `			tq.SetAuthorReplyStatus(tq.AuthorStatusPassAdd),
+			tq.SetAuthorReplyServerMsg("authorization denied"),`}}})
+	addMutant(Mutant{Name: "c11-match-subject-with-cr", Props: []string{"C11"}, Rule: "R-FIRSTMATCH", KeySub: "subject",
+		Why: "patterns are matched against the argument string including the trailing <cr>",
+		Edits: []Edit{{File: "cmds/server/config/authorizers/stringy/command.go", Old: `regexp.MatchString(regexish, a.body.Args.CommandArgsNoLE())`, New: `regexp.MatchString(regexish, a.body.Args.CommandArgs())`}}})
+}
